@@ -15,6 +15,7 @@
 (* Rows: {"e":"run","id":..} {"e":"tick"} {"e":"end"}                       *)
 (*  {"e":"step","t","i","op","g","first","done","x","flags":[..],"fin":n,   *)
 (*   "latch":b,"tag":{"k","n"},"sameino":b,"changed":b,"oldfd":b,          *)
+(*   "wait":b,"sameq":b (a waiting query: all polls named its instant),    *)
 (*   "q":n (first message of a query),                                     *)
 (*   "finished","names","lat" (last message of a query)}                   *)
 (*  {"e":"tagobs","tag":{"k","n"},"ino":n} status.tag as seen by a polling  *)
@@ -55,6 +56,9 @@ Failing == {n \in {"FinishedOnlyAfter", "QueryTruthPos", "QueryTruthZero", "Quer
 \* write / truncate / open(O_TRUNC) on the visible name do not.
 InPlace(r) == IF (r.changed /\ r.sameino) \/ r.oldfd THEN {"TagInPlace"} ELSE {}
 \* ... and once status.tag has been seen, every later look finds it: a replacement leaves no window without the file
+\* a waiting query (the real ProvisionQuery client, all its polls in one row): every request the listener received
+\* for it named the instant the query was created with
+WaitInstant(r) == IF r.wait /\ ~r.sameq THEN {"WaitQueryInstant"} ELSE {}
 Vanished(r) == IF tagF.k # "absent" /\ r.tag.k = "absent" THEN {"TagVanished"} ELSE {}
 
 TInit == Init /\ l = 1 /\ viol = {} /\ runid = "-" /\ tino = 0 /\ tsAt = 0
@@ -133,11 +137,13 @@ TStep ==
                           q2 == IF r.g \in {"get", "ask"} THEN [q1 EXCEPT !.fl = f2, !.rep = rep2, !.ev = Max(q1.ev, ev2)]
                                 ELSE [q1 EXCEPT !.ev = Max(q1.ev, ev2)]
                           q3 == IF r.done
-                                THEN [q2 EXCEPT !.pc = "done", !.finished = r.finished, !.names = SetOf(r.names),
+                                \* (a waiting client that gives up returns "not finished" with an empty text)
+                                THEN [q2 EXCEPT !.pc = "done", !.finished = r.finished,
+                                                !.names = IF r.wait /\ ~r.finished THEN All \ q2.rep ELSE SetOf(r.names),
                                                 !.lat = r.lat, !.tu = timeupAt]
                                 ELSE q2
                       IN [qs EXCEPT ![r.i] = q3]
-  /\ viol' = viol \cup Failing \cup InPlace(Rec[l]) \cup Vanished(Rec[l]) /\ l' = l + 1
+  /\ viol' = viol \cup Failing \cup InPlace(Rec[l]) \cup Vanished(Rec[l]) \cup WaitInstant(Rec[l]) /\ l' = l + 1
   /\ UNCHANGED <<clock, kkLeft, rdLeft, latchLeft, tmpF, fd, last, runid, tino>>
 
 TNext == TRun \/ TTick \/ TObs \/ TStep
